@@ -116,7 +116,9 @@ class Flow(object):
             pscope = self.scope.parent
             if pscope:
                 snames = pscope.names
-                if isinstance(self.scope, ClassScope):
+                if isinstance(self.scope, ClassScope) or self.scope is self.scope.top:
+                    # class and module bodies look a name up again at every read: until the body
+                    # binds it, the outer (for a module: builtin) name is what a read finds
                     return MergedDict(snames)
                 else:
                     outer_names = set(snames).difference(self.scope.locals)
